@@ -37,3 +37,8 @@ Definition run_seq (k : enc_kind) (c : config FN) (l : list (assignment FN))
   | Ok s0 => let r := assign_all FN k s0 l in
              Nd [L 0%Z; ser_estate s0; ser_list ser_step (fst r); fwd (forward_config FN (snd r))]
   end.
+
+(* Bernoulli encoders on GIVEN uniform draws (adversarial schedules: the stub layer's bernoulli(p) is [u < p]) *)
+Definition run_hpa_spikes c xs us : tree := ser_result ser_matrix (hpa_forward FN c xs us).
+Definition run_f_bern_spikes (steps : nat) dt inps us : tree := ser_matrix (bern_homogeneous FN steps dt inps us).
+Definition run_f_inhomog_spikes dt inps us : tree := ser_matrix (bern_inhomogeneous FN dt inps us).
